@@ -432,9 +432,7 @@ macro_rules! make_resolve_const_function {
                     $fn_ident(lhs, consts_unsigned).wrapping_add($fn_ident(rhs, consts_unsigned))
                 }
                 ConstExprEnum::Sub(lhs, rhs) => {
-                    // array sizes cannot be negative (and never wrap around to 2^64 - 1): the
-                    // join of two empty arrays has `0 + 0 - 1`, i.e. no elements
-                    $fn_ident(lhs, consts_unsigned).saturating_sub($fn_ident(rhs, consts_unsigned))
+                    $fn_ident(lhs, consts_unsigned).wrapping_sub($fn_ident(rhs, consts_unsigned))
                 }
                 ConstExprEnum::ConstExprIdent(ident) => *consts_unsigned
                     .get(ident)
